@@ -19,19 +19,19 @@ from . import common, scenarios, tlc
 from .rec_health import REC, Track
 
 PROP = "C14"
-VARIANTS = ["db", "web", "app", "db-nobackup"]
+VARIANTS = ["db", "web", "app", "db-nobackup", "web-db"]
 FS_ALL = ["FileScan", "FileCorrupt", "FileRepair", "FileRestore", "SqlDelete", "SqlEncrypt", "FolderCorrupt",
           "FolderRepair", "FolderScan", "FolderRestore"]
 MC_ACTIONS = {
     "MC_HealthSw.cfg": ["MSwCompromise", "MSwFix", "MSwScan", "MSwStart", "MSwConnect", "MSwInstall", "MPowerOff", "MPowerOn",
-                        "MFixDone", "MInstallDone", "OsScanReq", "OsScanDone", "TickBegin", "TickEnd"],
+                        "MFixDone", "MInstallDone", "MOsScanAny", "OsScanDone", "TickBegin", "TickEnd"],
     "MC_HealthFs.cfg": ["MFileScan", "MFileCorrupt", "MFileRepair", "MFileRestore", "MSqlDelete", "MSqlEncrypt",
-                        "MFolderCorrupt", "MFolderRepair", "FolderScanReq", "FolderRestoreReq", "MFoScanDone",
+                        "MFolderCorrupt", "MFolderRepair", "MFolderScanAny", "MFolderRestoreAny", "MFoScanDone",
                         "MRestoreDone", "MPowerOff", "MPowerOn", "OsScanDone", "TickBegin", "TickEnd"],
-    "MC_HealthOs.cfg": ["OsScanReq", "OsScanDone", "MFoScanDone", "MRestoreDone", "TickBegin", "TickEnd"],
-    "MC_Health.cfg": ["MSwFix", "MFixDone", "MSqlDelete", "MSqlEncrypt", "MFileScan", "OsScanReq", "OsScanDone"],
+    "MC_HealthOs.cfg": ["MOsScanAny", "OsScanDone", "MFoScanDone", "MRestoreDone", "TickBegin", "TickEnd"],
+    "MC_Health.cfg": ["MSwFix", "MFixDone", "MSqlDelete", "MSqlEncrypt", "MFileScan", "MOsScanAny", "OsScanDone"],
     "MC_HealthLive.cfg": ["MSwFix", "MFixDone", "OsScanDone", "TickEnd"],
-    "MC_HealthLiveFs.cfg": ["FolderScanReq", "FolderRestoreReq", "MFoScanDone", "MRestoreDone", "TickEnd"],
+    "MC_HealthLiveFs.cfg": ["MFolderScanAny", "MFolderRestoreAny", "MFoScanDone", "MRestoreDone", "TickEnd"],
 }
 MC_LABEL = {
     "MC_HealthSw.cfg": "software x node scan, fix/node durations 0..3",
@@ -62,6 +62,13 @@ def build_host(variant: str, fd: int, sd: int, rd: int, nd: int, via_defaults: b
         b["services"] = [{"type": "ftp-server"}]
         b["applications"] = [{"type": "database-client", "options": {"db_server_ip": "192.168.1.2"}}]
         sw_kind, sw_name, folder, files = "service", "database-service", "database", ("database.db", "x.txt")
+    elif variant == "web-db":
+        # a web server whose pages come from a database on the peer; the peer's browser asks for them
+        a["services"] = [{"type": "web-server", "options": {"fixing_duration": fd}}]
+        a["applications"] = [{"type": "database-client", "options": {"db_server_ip": "192.168.1.3"}}]
+        b["services"] = [{"type": "database-service"}]
+        b["applications"] = [{"type": "web-browser", "options": {"target_url": "http://192.168.1.2/users"}}]
+        sw_kind, sw_name, folder, files = "service", "web-server", "vf", ("a.txt", "b.txt")
     elif variant == "web":
         a["services"] = [{"type": "web-server", "options": {"fixing_duration": fd}}]
         sw_kind, sw_name, folder, files = "service", "web-server", "vf", ("a.txt", "b.txt")
@@ -87,7 +94,8 @@ def build_host(variant: str, fd: int, sd: int, rd: int, nd: int, via_defaults: b
     if variant.startswith("db"):
         client = peer.software_manager.software["database-client"]
         client.connect()
-    return {"game": game, "sim": sim, "node": node, "peer": peer, "sw": sw, "sw_kind": sw_kind, "sw_name": sw_name,
+    browser = peer.software_manager.software.get("web-browser") if variant == "web-db" else None
+    return {"game": game, "sim": sim, "node": node, "peer": peer, "sw": sw, "browser": browser, "sw_kind": sw_kind, "sw_name": sw_name,
             "folder": folder, "files": files, "client": client}
 
 
@@ -172,6 +180,17 @@ def run_behaviour(beh, variant: str, durs, via_defaults: bool, rng: random.Rando
             # deleting and restoring the second file is not part of the model: interleave it here
             if a != "TickBegin" and rng.random() < 0.04:
                 req(node_p + ["file_system", "delete", "file", h["folder"], h["files"][1]])
+            if h["browser"] is not None and a != "TickBegin":
+                # benign activity that is not in the model: a user asks the web server for a page; the database
+                # behind it is sometimes stopped / started
+                if rng.random() < 0.3:
+                    ops.append(["page"])
+                    with REC.stim("Other") as s:
+                        s.ok = bool(h["browser"].get_webpage())
+                if rng.random() < 0.12:
+                    dbs = h["peer"].software_manager.software["database-service"]
+                    req(["network", "node", "b", "service", "database-service",
+                         "stop" if dbs.operating_state.name == "RUNNING" else "start"])
             if tr.ev and tr.ev[-1]["ev"] == "Raised":
                 break
     except Exception as e:  # noqa - an exception out of repository code is an event no module allows
@@ -238,27 +257,42 @@ def scenario_traces(name: str, steps: int, seed: int) -> List[Dict[str, Any]]:
 
 # ---------------------------------------------------------------------------------------------
 
+PRIORITY = ["NoError", "KnownEvent", "NoStrayWrites", "SwActualOnlyByEvent", "FileHealthOnlyByEvent", "SwVisibleOnlyByScan",
+            "FileVisibleOnlyByScan", "FolderVisibleOnlyByScan", "SwVisibleEqualsTrue", "FileVisibleEqualsTrue", "ScanShowsTruth",
+            "WritesAccounted", "RefusedChangesNothing", "InstantOnlyAtZero", "FixExactly", "FixNotOverdue", "FolderScanInWindow",
+            "FolderScanNotOverdue", "RestoreInWindow", "RestoreNotOverdue", "RestoreRestores", "OsScanInWindow", "OsScanNotOverdue"]
+
+
 def sig_fn(tr, event, stuck):
     c = tr["cfg"]
-    sig = {"scale": tr["meta"].get("scale"), "variant": tr["meta"].get("variant", tr["meta"].get("kind"))}
+    meta = tr["meta"]
+    sig: Dict[str, Any] = {"scale": "host" if meta.get("scale") == "host" else "scenario"}
     ev = event.get("ev")
     st = (stuck or {}).get("st") or {}
-    fails = set((stuck or {}).get("fail") or [])
+    allf = list((stuck or {}).get("fail") or [])
+    # one canonical clause per rejected trace (all failing clauses are in the replay file): the first in PRIORITY
+    first = sorted(allf, key=lambda x: PRIORITY.index(x) if x in PRIORITY else 99)[:1]
+    fails = set(first)
+    if first:
+        sig["clause"] = first[0]
     # the configured duration the failing clause is about
-    if fails & {"FolderScanNotOverdue", "FolderScanInWindow"} or ev in ("FolderScanReq", "FoScanDone"):
+    if fails & {"FolderScanNotOverdue", "FolderScanInWindow"} or (not fails and ev in ("FolderScanReq", "FoScanDone")):
         sig["scan_duration_zero"] = c["scan"] == 0
-    if fails & {"RestoreNotOverdue", "RestoreInWindow", "RestoreRestores"} or ev in ("FolderRestoreReq", "RestoreDone"):
+    if fails & {"RestoreNotOverdue", "RestoreInWindow", "RestoreRestores"} or (not fails and ev in ("FolderRestoreReq", "RestoreDone")):
         sig["restore_duration_zero"] = c["rest"] == 0
-    if fails & {"OsScanNotOverdue", "OsScanInWindow"} or ev in ("OsScanReq", "OsScanDone"):
+    if fails & {"OsScanNotOverdue", "OsScanInWindow"} or (not fails and ev in ("OsScanReq", "OsScanDone")):
         sig["node_scan_duration_zero"] = c["node"] == 0
-    if fails & {"FixExactly", "FixNotOverdue"} or ev in ("FixDone", "SwFix"):
+    if fails & {"FixExactly", "FixNotOverdue"} or (not fails and ev in ("FixDone", "SwFix")):
         sig["fix_duration"] = c["fix"]
+    if ev in ("Raised", "Other") or not fails:
+        # which item, and inside what
+        item = meta.get("item", "")
+        sig["item"] = meta.get("variant") or (item.split("/")[1] if meta.get("kind") == "software" and "/" in item else meta.get("kind"))
+        sig["context"] = "/".join(str(event.get("ctx", "")).split("/")[-2:])
+        sig["written"] = ",".join(event.get("wr", []))
     if ev == "Raised":
-        sig["exception"] = (tr["meta"].get("exception") or tr["meta"].get("episode_exception") or "")[:60]
-        prev = (tr["ev"][-2]["ev"] if len(tr["ev"]) > 1 else "")
-        sig["after"] = prev
-    if isinstance(st, dict) and st.get("swA") is not None and ev in ("FixDone", "Raised"):
-        sig["software_health_before"] = st.get("swA")
+        sig["exception"] = (meta.get("exception") or meta.get("episode_exception") or "")[:60]
+        sig["after"] = tr["ev"][-2]["ev"] if len(tr["ev"]) > 1 else ""
     return sig
 
 
